@@ -705,7 +705,9 @@ M('zmq-D52-shape-client-key-concatenated', ['C06'], Z, '''                full_i
 M('zmq-D53-shape-wall-clock', ['C06'], Z, "from time import monotonic_ns as time_ns, sleep", "from time import time_ns, sleep", ['C06.R13'])
 M('zmq-eph-close-withdraws-permission', ['C05'], Z, "                            if not client.ephemeral or str(client_id) in self.outs_required:  # a listener leaving changes nothing for the others and must not hold the publisher up, unless it is an output the publisher has to wait for\n                                do_send = False", "                            if True:\n                                do_send = False", ['C05.R11'])
 M('zmq-eph-id-in-balanced-max', ['C05'], Z, "                        out_prev_id if ephemeral else max(out_prev_id, prev_id),", "                        max(out_prev_id, prev_id),", ['C05.R11'])
-M('zmq-D54-shape-eph-close-keeps-partial', ['C05'], Z, "                            if sender_eph and sender.got == 'some':  # the rest of a half received set will not come any more, and must not be completed by the next publisher on this address\n                                sender.new_recv()\n", "", ['C05.R11'])
+M('zmq-D54-shape-eph-close-keeps-partial', ['C05', 'C02', 'C01'], Z, "                            if sender.got == 'some':  # the rest of a half received set will not come any more, and must not be completed by the next publisher on this address (a synchronized consumer's requests fast-forward that one to exactly this id)\n                                sender.new_recv()\n", "", ['C05.R11', 'C02.R13', 'C01.R15'])
+M('zmq-D72-shape-only-eph-close-drops-partial', ['C02', 'C01'], Z, "                            if sender.got == 'some':  # the rest of a half received set will not come any more", "                            if sender_eph and sender.got == 'some':  # the rest of a half received set will not come any more", ['C02.R13', 'C01.R15'])
+M('zmq-only-sync-close-drops-partial', ['C05'], Z, "                            if sender.got == 'some':  # the rest of a half received set will not come any more", "                            if not sender_eph and sender.got == 'some':  # the rest of a half received set will not come any more", ['C05.R11'])
 
 M('scan-D58-shape-stat-unprotected', ['C13', 'C14'], RL, "                try:\n                    size = os.stat(path).st_size\n                except FileNotFoundError:  # pruned by the writer between the listing and this look at it\n                    continue\n", "                size = os.stat(path).st_size\n", ['C13.R8', 'C14.R7'])
 # ------------------------------------------------------------------------------------------------------ round 9 seeds and D59 .. shapes
